@@ -21,7 +21,7 @@ CHECK_DEADLOCK FALSE
 def data_module(bps, recs, consts):
     lines = ["---- MODULE Data ----", "EXTENDS Integers"]
     for k, v in consts.items():
-        lines.append("%s == %s" % (k, enc(v)))
+        lines.append("%s == %s" % (k, enc(set(v) if k == "Clauses" else v)))
     lines.append("BPs == <<\n  " + ",\n  ".join(enc(b) for b in bps) + "\n>>")
     lines.append("Recs == <<\n  " + ",\n  ".join(enc(r) for r in recs) + "\n>>")
     lines.append("====")
